@@ -292,11 +292,46 @@ func genC04(g *prng.R) c04Case {
 	case "wrapped":
 		sc.Cfg.FedWrapped = true
 	case "other":
-		sc.Cfg.FedOther = []string{"ActivityStreams" + typ}
+		// the override of the type under test, alone or somewhere in a list
+		// of overrides for other types (handled by default or not)
+		sc.Cfg.FedOther = otherList(g, typ, true)
+	case "none":
+		// overrides for *other* types only must leave this type's default effect alone
+		if g.Chance(1, 3) {
+			sc.Cfg.FedOther = otherList(g, typ, false)
+		}
 	}
 	sc.Requests = []sim.Request{sim.PostInboxReq(aliceIn(), withCtx(act))}
 	cs.Info["activity_id"] = actID
 	return cs
+}
+
+// otherList draws a list of 'other' overrides: 0..4 types other than typ in
+// random order, with typ's own override at a random position when withOwn.
+func otherList(g *prng.R, typ string, withOwn bool) []string {
+	pool := []string{"Create", "Update", "Delete", "Follow", "Accept", "Reject", "Add", "Remove", "Like", "Announce", "Undo", "Block", "Listen", "Arrive", "Move"}
+	n := g.Intn(5)
+	if !withOwn && n == 0 {
+		n = 1
+	}
+	if withOwn && g.Chance(1, 3) {
+		n = 0
+	}
+	var out []string
+	seen := map[string]bool{typ: true}
+	for len(out) < n {
+		t := pool[g.Intn(len(pool))]
+		if seen[t] {
+			continue
+		}
+		seen[t] = true
+		out = append(out, "ActivityStreams"+t)
+	}
+	if withOwn {
+		at := g.Intn(len(out) + 1)
+		out = append(out[:at], append([]string{"ActivityStreams" + typ}, out[at:]...)...)
+	}
+	return out
 }
 
 func stringsToA(s []string) A {
@@ -331,8 +366,14 @@ func init() {
 				if e.Kind == "cb.fed.wrapped."+cs.Typ && cbIdx < 0 {
 					cbIdx = i
 				}
-				if strings.HasPrefix(e.Kind, "cb.fed.other.") && otherIdx < 0 {
-					otherIdx = i
+				if strings.HasPrefix(e.Kind, "cb.fed.other.") {
+					if e.Kind != "cb.fed.other.ActivityStreams"+cs.Typ {
+						viol("foreign-override-invoked", "pub.(*sideEffectActor).PostInbox", cs.Typ, "the 'other' callback written for another type was invoked: "+e.Kind)
+					} else if otherIdx < 0 {
+						otherIdx = i
+					} else {
+						viol("override-invoked-twice", "pub.(*sideEffectActor).PostInbox", cs.Typ, "the 'other' callback was invoked more than once")
+					}
 				}
 				if e.Injected && injIdx < 0 {
 					injIdx = i
